@@ -1,6 +1,8 @@
 package main
 
 import (
+	"golang.org/x/tools/go/cfg"
+
 	"go/ast"
 	"go/token"
 	"go/types"
@@ -200,6 +202,57 @@ func runC06(c *Ctx) {
 			n, found := f.reach(starts, isRehash, okReturn, true)
 			c.Check("R06a", key, nodePos(n, node.Pos()), !found, "after writing a file into the directory, %s is reachable on a non-error path without re-hashing (no call reaching WriteSumFile)", c.nodeAtOrEnd(n))
 		}
+	})
+
+	// ---- R06e
+	c.Rule("R06e", "the sum written for a directory is that directory's own checksum: in every call WriteSumFile(D, S), S is the result of D.Checksum() (listed exception: MemDir.CopyFiles hashes the files it was just given, in the order produced by Dir.Files)", 6)
+	c.allBodies(func(b bodyInfo) {
+		info := b.fi.Info()
+		walkShallow(b.body, func(m ast.Node) bool {
+			call, ok := m.(*ast.CallExpr)
+			if !ok || !funcIs(calleeOf(info, call), pMigrate, "", "WriteSumFile") || len(call.Args) != 2 {
+				return true
+			}
+			c.funcs[b.name] = true
+			key := b.name + "|WriteSumFile(" + types.ExprString(call.Args[0]) + ", …)"
+			if b.name == "migrate.(MemDir).CopyFiles" {
+				c.Check("R06e", key+"|listed exception", call.Pos(), true, "")
+				return true
+			}
+			sid, ok := call.Args[1].(*ast.Ident)
+			okSum := false
+			if ok {
+				sobj := info.ObjectOf(sid)
+				// the single definition of S: `S, err := X.Checksum()`
+				defs := 0
+				ast.Inspect(b.body, func(k ast.Node) bool {
+					as, ok := k.(*ast.AssignStmt)
+					if !ok {
+						return true
+					}
+					for i, l := range as.Lhs {
+						if id, ok := l.(*ast.Ident); ok && info.ObjectOf(id) == sobj {
+							defs++
+							if len(as.Rhs) == 1 && i == 0 {
+								if rc, ok := as.Rhs[0].(*ast.CallExpr); ok {
+									if se, ok := rc.Fun.(*ast.SelectorExpr); ok && se.Sel.Name == "Checksum" && len(rc.Args) == 0 {
+										if types.ExprString(se.X) == types.ExprString(call.Args[0]) && sameRoot(info, se.X, call.Args[0]) {
+											okSum = true
+										}
+									}
+								}
+							}
+						}
+					}
+					return true
+				})
+				if defs != 1 {
+					okSum = false
+				}
+			}
+			c.Check("R06e", key, call.Pos(), okSum, "the hash file written for %s is not the result of %s.Checksum(): the stored sum may not describe the directory as Validate will recompute it", types.ExprString(call.Args[0]), types.ExprString(call.Args[0]))
+			return true
+		})
 	})
 
 	// ---- R06b
@@ -456,6 +509,49 @@ func checkDigest(c *Ctx) {
 				}
 			}
 			c.Check("R06c", "NewHashFile|name+bytes into one hash", loop.Pos(), ok, "NewHashFile must write both f.Name() and f.Bytes() of every file into the same hash")
+			// the file name enters the digest on every iteration (only the content may be skipped by the sum-ignore directive)
+			{
+				fl := newFlow(info, fi.Decl.Body)
+				writesName := func(n ast.Node) bool {
+					hit := false
+					walkShallow(n, func(m ast.Node) bool {
+						call, ok := m.(*ast.CallExpr)
+						if !ok {
+							return true
+						}
+						se, ok := call.Fun.(*ast.SelectorExpr)
+						if !ok || se.Sel.Name != "Write" || len(call.Args) != 1 {
+							return true
+						}
+						ast.Inspect(call.Args[0], func(k ast.Node) bool {
+							if ic, ok := k.(*ast.CallExpr); ok {
+								if s2, ok := ic.Fun.(*ast.SelectorExpr); ok && s2.Sel.Name == "Name" {
+									if x, ok := s2.X.(*ast.Ident); ok && val != nil && info.ObjectOf(x) == info.ObjectOf(val) {
+										hit = true
+									}
+								}
+							}
+							return true
+						})
+						return true
+					})
+					return hit
+				}
+				var bodyStart []point
+				isHead := func(b *cfg.Block) bool { return b.Kind == cfg.KindRangeLoop && b.Stmt == ast.Stmt(loop) }
+				isDone := func(b *cfg.Block) bool { return b.Kind == cfg.KindRangeDone && b.Stmt == ast.Stmt(loop) }
+				for _, b := range fl.G.Blocks {
+					if b.Kind == cfg.KindRangeBody && b.Stmt == ast.Stmt(loop) {
+						bodyStart = append(bodyStart, point{b, 0})
+					}
+				}
+				if len(bodyStart) == 0 {
+					c.Unresolved("R06c", "CFG body block of the file loop in NewHashFile")
+				} else {
+					skipped := fl.reachBlock(bodyStart, writesName, func(b *cfg.Block) bool { return isHead(b) || isDone(b) })
+					c.Check("R06c", "NewHashFile|name hashed on every iteration", loop.Pos(), !skipped, "an iteration of the file loop can finish (continue / fall through) without writing f.Name() into the digest: adding, removing or renaming such a file goes unnoticed")
+				}
+			}
 			c.Check("R06c", "NewHashFile|cumulative hash", loop.Pos(), ok && outside, "the running hash must be created once, outside the file loop (cumulative digest)")
 			// the per-file entry records Name and the digest so far
 			appended := false
@@ -635,4 +731,9 @@ func checkValidate(c *Ctx) {
 		}
 		c.Check("R06d", "Executor.ValidateDir|calls Validate", vf.Decl.Pos(), has, "ValidateDir must call Validate on the executor's directory and use its result")
 	}
+}
+
+func sameRoot(info *types.Info, a, b ast.Expr) bool {
+	ra, rb := rootIdent(a), rootIdent(b)
+	return ra != nil && rb != nil && info.ObjectOf(ra) == info.ObjectOf(rb)
 }
